@@ -200,6 +200,42 @@ def r02e(ctx, rep):
                                      "definitions and captured arguments of different calls overwrite each other)", [s["loc"]])
 
 
+def r02h(ctx, rep, rule="R02h"):
+    facts = ctx["facts"]
+    from . import tables
+    from .. import shapes
+    rep.rule(rule, "the free-variable scan may skip an operand only where the form declares it: every keyword arm of "
+             "find_free_symbols_in_proc that continues the scan past an operand (takes a cdr of the operand list) adds the "
+             "names it skipped to the bound set (HashSet::insert on env) in the same arm. An arm that skips an operand "
+             "without declaring anything hides a reference — the skipped name is then missing from the closure's "
+             "environment map and resolves to the global of that name.")
+    f = need(rep, rule, facts, C01.FFS)
+    if f is None:
+        return
+    arms = tables.str_eq_consts(f)
+    rep.floor(rule, "keyword arms of the free-variable scan", len(arms), 2)
+    for kw, bb, t in arms:
+        key = "%s|%s" % (rule, kw)
+        if t.get("target") is None or f.blocks[t["target"]]["term"]["k"] != "switch":
+            rep.anchor_lost(rule, "keyword test of `%s` is not followed by a branch" % kw)
+            continue
+        sw = f.blocks[t["target"]]["term"]
+        tru = sw["otherwise"]
+        excl = {b for b in f.reachable() if f.dominates(tru, b)} if len([p for p in f.pred[tru] if p in f.reachable()]) == 1 else set()
+        skips = [b2 for b2, t2 in f.calls() if b2 in excl and callee(t2) == "marwood::cell::Cell::cdr"
+                 and shapes.shape(f, t2["args"][0]) == "a1.1"]
+        inserts = [b2 for b2, t2 in f.calls() if b2 in excl and (callee(t2) or "").endswith("HashSet::<T, S, A>::insert")
+                   and shapes.shape(f, t2["args"][0]) == "a2"]
+        if not skips:
+            rep.ok(rule, key, "the `%s` arm skips no operand" % kw, [f.span], nontrivial=False)
+        elif inserts:
+            rep.ok(rule, key, "the `%s` arm skips its first operand and declares the names in it as bound" % kw, [t.get("loc") or f.span])
+        else:
+            rep.fail(rule, key, "the `%s` arm of the free-variable scan skips an operand but declares no binder: a variable "
+                     "that occurs only there (e.g. the target of an assignment) is never captured, and the compiler resolves "
+                     "it to a global" % kw, [t.get("loc") or f.span])
+
+
 def run(ctx, rep):
     C01.r01a(ctx, rep, rule="R02a", only=("free-variable-scan",))
     r02b(ctx, rep)
@@ -208,4 +244,21 @@ def run(ctx, rep):
     r02e(ctx, rep)
     from . import prelude
     prelude.r01g(ctx, rep, rule="R02f")
+    r02h(ctx, rep)
+    # R02i: the collector keeps captured locations alive
+    from . import C03
+    rep.rule("R02i", "a binding stays usable after its creator returned: C03's trace-completeness obligations (R03c) for the "
+             "cells a captured location is reached through — VCell::Closure, LexicalEnv (and the values in its slots), "
+             "LexicalEnvPtr and EnvironmentPointer.")
+    sub = type(rep)(rep.prop)
+    C03.r03c(ctx, sub)
+    n = 0
+    for o in sub.obs:
+        if re.search(r"\|(Closure|LexicalEnv|LexicalEnvPtr|EnvironmentPointer)\.", o.key) or "LexicalEnvironment::get" in o.key:
+            o.rule = "R02i"
+            o.key = o.key.replace("R03c", "R02i")
+            rep.obs.append(o)
+            n += 1
+    rep.floor("R02i", "trace obligations on environment cells", n, 8)
+    C01.r01n(ctx, rep, rule="R02g", only=("find_free_symbols_in_template",))
     rep.not_decided += ["a wrong slot number or capture distance", "values denoted by references in concrete programs"]
